@@ -64,11 +64,11 @@ fn app(t: u32, n: u32) -> Vec<Op> {
 
 /// Build target core number k. Honest (request, proof) pairs that the target would accept next
 /// are collected for the alteration mode.
-fn build_target(k: u64, r: &mut Rng) -> Result<Target, Fail> {
+fn build_target(k: u64, r: &mut Rng, cache: CacheMode) -> Result<Target, Fail> {
     let key_seed = 7000 + k;
     let writer_n: [u32; 9] = [0, 1, 2, 4, 5, 7, 8, 33, 1000];
     if k < 9 {
-        let mut w = Sut::create(key_seed, World::new(), CacheMode::None)?;
+        let mut w = Sut::create(key_seed, World::new(), cache)?;
         let n = writer_n[k as usize];
         if n == 1000 {
             repl::apply_writer_ops(&mut w, &[Op::Batch((0..n).map(|i| (i + 1, 1 + i % 3)).collect())])?;
@@ -89,9 +89,9 @@ fn build_target(k: u64, r: &mut Rng) -> Result<Target, Fail> {
         return Ok(Target { kind, core, world, model, writer: None, honest: vec![] });
     }
     // replicas
-    let mut w = Sut::create(key_seed, World::new(), CacheMode::None)?;
+    let mut w = Sut::create(key_seed, World::new(), cache)?;
     repl::apply_writer_ops(&mut w, &app(1, 6 + (k as u32 % 3) * 5))?;
-    let mut rep = Replica::create(&w.key, CacheMode::None)?;
+    let mut rep = Replica::create(&w.key, cache)?;
     let wl = w.model.length();
     let kind = match k {
         9 => "replica-empty",
@@ -332,7 +332,11 @@ fn run_case(ctx: &mut Ctx, id: u64) {
     let mut r = ctx.case_rng(id);
     let fixed = N_CORES * N_MODES;
     let (k, mode) = if id < fixed { (id / N_MODES, id % N_MODES) } else { (r.below(N_CORES), 3 + r.below(2)) };
-    let t = match build_target(k, &mut r) {
+    // whatever the node cache does (keeps, evicts, forgets at once) a call must end: the fixed
+    // cases run without cache, the random ones with every cache mode in turn
+    let cache = if id < fixed { CacheMode::None } else { ops::CACHE_MODES[(id % 4) as usize] };
+    ctx.count(&format!("cache:{cache:?}"));
+    let t = match build_target(k, &mut r, cache) {
         Ok(t) => t,
         Err(f) => {
             ctx.count("target_unusable");
